@@ -17,6 +17,7 @@ from pyvc.fp import SFp
 from pyvc.values import FIN
 from pyvc.interp import Loop
 from pyvc import lemmas
+from contracts import compress as _compress
 
 PROP = 'C15'
 LEVEL = 'proof'
@@ -208,8 +209,116 @@ class Constructor(Contract):
         return out
 
 
+def valid_coo_clauses(nvals, rowidx, nrows, colidx, ncols):
+    """COO data that define a matrix unambiguously (the property statement): consistent lengths, row indices in range and
+    sorted, column indices in range, and strictly increasing columns within a run of equal row indices (no repeats)."""
+    n = rowidx.n
+    return [('lengths-agree', z3.And(nvals == n, colidx.n == n)),
+            ('rowidx-in-range-and-sorted', _compress.valid(rowidx, nrows)),
+            ('colidx-in-range', qforall(1, lambda k: z3.Implies(z3.And(0 <= k, k < n), z3.And(0 <= colidx.sel(k), colidx.sel(k) < ncols)))),
+            ('colidx-strictly-increasing-within-a-row', qforall(1, lambda k: z3.Implies(z3.And(0 <= k, k + 1 < n, rowidx.sel(k) == rowidx.sel(k + 1)), colidx.sel(k) < colidx.sel(k + 1))))]
+
+
+def csr_by_contract(S, on_accept=None):
+    """assemble_csr replaced by its contract (AssembleCSR above): MatrixError iff the data are not well-formed, else they
+    are handed to the backend unchanged.  What it received is recorded in S.received; `on_accept(ctx, wf)` may state
+    lemmas at that point (wf: clause name -> the formula object that is now a hypothesis)."""
+    def assemble_csr(ctx, values, rowptr, colidx, ncols):
+        if not (isinstance(values, Vec) and isinstance(rowptr, Vec) and isinstance(colidx, Vec)):
+            raise Unsupported('assemble_csr received non-array data: %r' % ((values, rowptr, colidx),))
+        ctx.used_axioms.add('matrix.assemble_csr by its contract (this file): MatrixError iff not WF, else the backend receives the data unchanged')
+        S.offered = (values, rowptr, colidx, ncols)
+        clauses = WF_clauses(values.n, rowptr, colidx, zint(ncols))
+        if not ctx.branch(z3.And(*[f for _, f in clauses])):
+            raise PyRaise('MatrixError', note='assemble_csr: data are not well-formed CSR')
+        for _, f in clauses:
+            ctx.assume(f)  # the conjuncts of the branch condition, as these formula objects
+        S.received = (values, rowptr, colidx, ncols)
+        S.received_wf = clauses
+        if on_accept is not None:
+            on_accept(ctx, dict(clauses))
+        return SOpaque('Matrix')
+    return assemble_csr
+
+
+def same_vec(a, b):
+    if a is b:
+        return z3.BoolVal(True)
+    from pyvc.nparr import eq_elem
+    return z3.And(a.n == b.n, qforall(1, lambda i: z3.Implies(z3.And(0 <= i, i < a.n), eq_elem(a.kind, a.sel(i), b.sel(i)))))
+
+
+class AssembleCOO(Contract):
+    """matrix.assemble_coo (composition): what it hands to assemble_csr is the row-pointer form of the COO input
+    (compress_indices by contract), everything else unchanged; hence accepted iff the COO data define a matrix unambiguously."""
+    prop = PROP
+    fn = 'matrix/__init__:assemble_coo'
+
+    def setup(self, cx):
+        values = Vec.fresh(cx, 'values', 'fp', probes=0)
+        rowidx = Vec.fresh(cx, 'rowidx', 'int', probes=4)
+        colidx = Vec.fresh(cx, 'colidx', 'int', probes=4)
+        nrows, ncols = cx.int('nrows'), cx.int('ncols')
+        cx.assume(z3.And(nrows >= 0, ncols >= 0))
+        S = State(args=(values, rowidx, SInt(nrows), colidx, SInt(ncols)), inputs=(values, rowidx, nrows, colidx, ncols), received=None, offered=None, entry_in_row=None)
+        S.valid_clauses = valid_coo_clauses(values.n, rowidx, nrows, colidx, ncols)
+        S.valid = z3.And(*[f for _, f in S.valid_clauses])
+        S.globals = {'numeric': _compress.NumericByContract(), 'assemble_csr': csr_by_contract(S, lambda ctx, wf: self.hints(ctx, S, wf)), 'numpy': Numpy()}
+        return S
+
+    def hints(self, cx, S, wf):
+        """At the point where assemble_csr accepts: WF of the row-pointer form => the COO input is valid (each clause a lemma
+        proved from the few facts it needs)."""
+        values, rowptr, colidx, ncols = S.received
+        v0, r0, nrows, c0, nc0 = S.inputs
+        g = [g for g in cx.ghost.get('compress_indices', []) if g['result'] is rowptr and g['indices'] is r0]
+        if not g or colidx is not c0:
+            return
+        post = dict(g[0]['post'])
+        V = dict(S.valid_clauses)
+        from pyvc import npext
+        npext.lemma(cx, 'coo-valid:lengths-agree', V['lengths-agree'], using=[wf['rowptr-ends-at-nnz'], post['ends-at-len'], post['length']])
+        npext.lemma(cx, 'coo-valid:rowidx-in-range-and-sorted', V['rowidx-in-range-and-sorted'], using=[g[0]['valid']])
+        npext.lemma(cx, 'coo-valid:colidx-in-range', V['colidx-in-range'], using=[wf['colidx-below-ncols'], wf['colidx-nonnegative'], wf['rowptr-ends-at-nnz'], post['ends-at-len'], post['length']])
+        S.entry_in_row = npext.lemma(cx, 'entry-k-lies-in-row-rowidx[k]', qforall(1, lambda k: z3.Implies(z3.And(0 <= k, k < r0.n), z3.And(
+            0 <= r0.sel(k), r0.sel(k) < nrows, rowptr.sel(r0.sel(k)) <= k, k < rowptr.sel(r0.sel(k) + 1)))), using=[post['rows-partition-positions'], g[0]['valid']])
+        npext.lemma(cx, 'coo-valid:colidx-strictly-increasing-within-a-row', V['colidx-strictly-increasing-within-a-row'],
+                    using=[wf['colidx-strictly-increasing-per-row'], S.entry_in_row, post['length']])
+
+    def ensures(self, cx, S, result):
+        if S.received is None:
+            raise Unsupported('assemble_coo returned without assemble_csr accepting anything')
+        values, rowptr, colidx, ncols = S.received
+        v0, r0, nrows, c0, nc0 = S.inputs
+        out = [('accepted-input-is-valid-coo:' + nm, f) for nm, f in S.valid_clauses]
+        out += [('csr:' + nm, f) for nm, f in S.received_wf]
+        # the callee contract of compress_indices gives exactly these clauses when it was called on (rowidx, nrows) and its
+        # result was passed on (then they are literally among the hypotheses); otherwise they are stated afresh
+        post = None
+        for g in cx.ghost.get('compress_indices', []):
+            if g['result'] is rowptr and g['indices'] is r0 and z3.eq(z3.simplify(g['L'] - nrows), z3.IntVal(0)):
+                post = g['post']
+        out += [('rowptr-is-row-pointer-form:' + nm, f) for nm, f in (post or _compress.post_clauses(r0, nrows, rowptr))]
+        out.append(('entry-k-lies-in-row-rowidx[k]', getattr(S, 'entry_in_row', None) if getattr(S, 'entry_in_row', None) is not None else qforall(1, lambda k: z3.Implies(z3.And(0 <= k, k < r0.n), z3.And(
+            0 <= r0.sel(k), r0.sel(k) < nrows, rowptr.sel(r0.sel(k)) <= k, k < rowptr.sel(r0.sel(k) + 1))))))
+        out.append(('values-colidx-ncols-unchanged', z3.And(same_vec(values, v0), same_vec(colidx, c0), zint(ncols) == nc0)))
+        return out
+
+    def raises(self, cx, S, e):
+        # rejection (ValueError from compress_indices, MatrixError from assemble_csr) is acceptable exactly for invalid COO data
+        if e.exc.split(':')[0] not in ('ValueError', 'MatrixError'):
+            return False
+        return z3.Not(S.valid)
+
+    def replay(self, ob):
+        import json, os
+        here = os.path.dirname(os.path.dirname(os.path.abspath(__file__)))
+        return ("import sys; sys.path.insert(0, %r)\nfrom native import c15\nc15.run_coo(%s, %r)\n"
+                % (here, json.dumps({k: v for k, v in (ob.model or {}).items() if not k.startswith('k!')}), ob.clause))
+
+
 def contracts():
-    return [AssembleCSR(), Diagonal(), Constructor('diag'), Constructor('empty')]
+    return [AssembleCSR(), AssembleCOO(), Diagonal(), Constructor('diag'), Constructor('empty')]
 
 
 TRUSTED = ['pyvc symbolic executor and its Python model (DESIGN 2.3)',
